@@ -493,9 +493,10 @@ func runC08(c *Ctx) {
 	copyHelperReadsToEnd(c, "R1")
 	// non-pointer input is passed through by the long-running filter as well: its answers follow the protocol
 	// grammar C14 decides (status before content, one status per request), shared here
-	c.RulePrefix = "C14/"
+	savedPrefix := c.RulePrefix
+	c.RulePrefix = savedPrefix + "C14/"
 	runC14(c)
-	c.RulePrefix = ""
+	c.RulePrefix = savedPrefix
 	c08SmudgePassesAllNonPointers(c)
 	notAPointerIsNotAnError(c, "R6")
 	c08BlankLines(c)
